@@ -81,6 +81,8 @@ def value_of(model, vs):
         return s
     if t == "fn":
         return ("fn", vs["v"])
+    if t == "bomb":
+        return ("bomb", vs["v"])
     if t == "list":
         return list(vs["v"])
     if t == "tuple":
